@@ -31,18 +31,25 @@ func (t T1) Hello() string         { return "hello" }
 func (t *T1) PtrM() string         { return "ptrm" }
 func (t T1) Twice(s string) string { return s + s }
 
+// T4: every method has a pointer receiver (like *bytes.Buffer); its results depend on the receiver
+type T4 struct{ N int64 }
+
+func (t *T4) Next() int64 { return t.N + 1 }
+func (t *T4) Self() int64 { return t.N }
+
 type T3 struct {
 	T2
 	Y int
 }
 
-var typeIDs = map[reflect.Type]int{reflect.TypeOf(T1{}): 1, reflect.TypeOf(T2{}): 2, reflect.TypeOf(T3{}): 3}
+var typeIDs = map[reflect.Type]int{reflect.TypeOf(T1{}): 1, reflect.TypeOf(T2{}): 2, reflect.TypeOf(T3{}): 3, reflect.TypeOf(T4{}): 4}
 
 // method tables: type id -> via pointer -> name -> function id
 var methodTable = map[int]map[bool]map[string]int{
 	1: {false: {"Hello": 21, "Twice": 23}, true: {"Hello": 21, "PtrM": 22, "Twice": 23}},
 	2: {false: {"GetX": 20}, true: {"GetX": 20}},
 	3: {false: {"GetX": 20}, true: {"GetX": 20}},
+	4: {false: {}, true: {"Next": 24, "Self": 25}},
 }
 
 var sentinels = []error{nil, errors.New("sentinel-1"), errors.New("sentinel-2"), errors.New("sentinel-3")}
@@ -225,7 +232,7 @@ func (e *valEnc) encRV(rv reflect.Value) string {
 
 func encMethods() string {
 	var parts []string
-	for ty := 1; ty <= 3; ty++ {
+	for ty := 1; ty <= 4; ty++ {
 		for _, ptr := range []bool{false, true} {
 			var names []string
 			for n := range methodTable[ty][ptr] {
